@@ -11,10 +11,11 @@ RULE = ('exhaustive: every subset of 8 registration keys (Use.ref, *.ref, Use.*,
         'each bound to a tagged provider (callable, callable object whose truth value is False, or RREL string with a fixed name) resolving to a distinct target, x grammar '
         'variants (no RREL / RREL on Use.ref / RREL on Use.refs and Other.ref) x registration via register_scope_providers or '
         'the constructor-time dict; for each of the references Use.ref (single), Use.refs (list), Other.ref the observed target '
-        'and the provider call log are compared with the documented precedence. distinct = (subset, grammar variant, provider '
+        'and the provider call log are compared with the documented precedence; second pass over every non-empty subset x grammar variant: the provider selected for Use.ref raises (KeyError, LookupError, AttributeError, TypeError, ValueError, IndexError, StopIteration, or is an RREL string naming an unknown rule) - the load must fail instead of being answered by a provider of lower precedence. distinct = (subset, grammar variant, provider '
         'kind, dict order); non-trivial = at least 2 keys registered')
 REQUIRED = {'references_checked': 1000, 'grammar_rrel_wins_checked': 50, 'default_provider_checked': 3,
-            'rrel_string_checked': 50, 'falsy_provider_objects_cases': 50, 'cases_with_an_earlier_registration': 100}
+            'rrel_string_checked': 50, 'falsy_provider_objects_cases': 50, 'cases_with_an_earlier_registration': 100,
+            'raising_provider_cases': 100}
 
 KEYS = ['Use.ref', '*.ref', 'Use.*', '*.*', 'Other.ref', 'Use.refs', '*.refs', 'Other.*']
 
@@ -141,6 +142,61 @@ def one(ctx, subset, gvariant, kind, reverse, via_ctor, rep):
             {'registered': keys, 'grammar': g, 'model': text, 'observed': obs}, rep)
 
 
+EXCS = [KeyError, LookupError, AttributeError, TypeError, ValueError, IndexError, StopIteration, 'rrel-unknown-rule']
+
+
+def raising(ctx, subset, gvariant, exc, rep):
+    """The provider that the precedence selects for Use.ref raises: the load must fail - the exception must not be taken
+    for "nothing registered here" and answered by a provider of lower precedence or by the default provider."""
+    from textx import metamodel_from_str
+    sel = expected('Use', 'ref', subset, gvariant)
+    if sel in ('default', 't_grammar'):
+        return
+    log = []
+
+    def mk(key):
+        t = tag(key)
+        if t == sel and exc == 'rrel-unknown-rule':
+            # an RREL string that names a rule the metamodel does not have
+            return 'parent(NoSuchRule).subs'
+
+        def provider(obj, attr, obj_ref):
+            log.append((key, type(obj).__name__, attr.name))
+            if t == sel and (type(obj).__name__, attr.name) == ('Use', 'ref'):
+                raise exc('x')
+            m = obj
+            while hasattr(m, 'parent'):
+                m = m.parent
+            for d in m.defs:
+                if d.name == t:
+                    return d.subs[0]
+            return None
+        return provider
+    g = HEAD + '\n'.join(GRAMMARS[gvariant])
+    mm = metamodel_from_str(g)
+    mm.register_scope_providers({k: mk(k) for k in subset})
+    # every name exists everywhere: whoever answers instead of the failing provider finds a target
+    text = ('def x def t_grammar { def x } ' + ' '.join('def %s { def x }' % tag(k) for k in KEYS) +
+            '\nuse u1 x list x , x\nother o1 x\n')
+    ctx.count('raising_provider_cases')
+    ctx.case((tuple(sorted(subset)), gvariant, 'raising', getattr(exc, '__name__', exc)), len(subset) >= 2,
+             {'registered': list(subset), 'grammar': gvariant, 'selected provider raises': getattr(exc, '__name__', exc)}
+             if ctx.evaluations < 3 else None)
+    try:
+        m = mm.model_from_str(text)
+    except BaseException as e:
+        if isinstance(e, (KeyboardInterrupt, SystemExit)) or type(e).__name__ == 'CaseTimeout':
+            raise
+        return
+    u = m.uses[0]
+    via = 'default' if not hasattr(u.ref, 'parent') or not hasattr(u.ref.parent, 'name') else u.ref.parent.name
+    asked = [k for k, cls, attr in log if (cls, attr) == ('Use', 'ref')]
+    ctx.violation(None, 'registered %r (grammar %s): the provider selected for Use.ref (%s) raised %s, yet the load succeeded and the '
+                  'reference was answered by %r (providers asked for it: %r)' % (
+                      list(subset), gvariant, sel, getattr(exc, '__name__', exc), via, asked),
+                  {'registered': list(subset), 'grammar': g, 'model': text}, rep)
+
+
 def space():
     out = []
     for n in range(len(KEYS) + 1):
@@ -158,8 +214,24 @@ def run(ctx):
     for i in ctx.indices(len(sp), 'exhaustive', exhaustive=True):
         subset, gv, kind, reverse = sp[i]
         one(ctx, subset, gv, kind, reverse, False, {'i': i})
+    rs = rspace()
+    for j in ctx.indices(len(rs), 'raising', exhaustive=True):
+        subset, gv = rs[j]
+        raising(ctx, subset, gv, EXCS[j % len(EXCS)], {'r': j})
+
+
+def rspace():
+    out = []
+    for n in range(1, len(KEYS) + 1):
+        for subset in itertools.combinations(KEYS, n):
+            for gv in GRAMMARS:
+                out.append((subset, gv))
+    return out
 
 
 def replay(ctx, rep):
+    if 'r' in rep:
+        subset, gv = rspace()[rep['r']]
+        return raising(ctx, subset, gv, EXCS[rep['r'] % len(EXCS)], rep)
     subset, gv, kind, reverse = space()[rep['i']]
     one(ctx, subset, gv, kind, reverse, False, rep)
